@@ -36,6 +36,12 @@ def subharnesses(tier):
         for budget_ in ((0, 1) if tier == 'quick' else (0, 1, 2)):
             subs.append(('seq-%s-expiries%d' % (s.replace(' ', '_'), budget_),
                          {'kind': 'seq', 'seq': s.split(), 'expiries': budget_}))
+    # the other session's node vanishes and comes back between two ZooKeeper
+    # calls of one request (budget 2: expiry, then re-registration)
+    for sq in ('C1b C2a', 'C1b C1a', 'C1b C2a D2a', 'C1a C2b'):
+        subs.append(('seq-%s-expire_and_recreate' % sq.replace(' ', '_'),
+                     {'kind': 'seq', 'seq': sq.split(), 'expiries': 2,
+                      'recreate': True}))
     for what in ('running', 'endpoints', 'identity', 'unschedule'):
         subs.append(('unregister-' + what, {'kind': 'unregister',
                                             'what': what}))
@@ -82,15 +88,26 @@ def _seq(S, spec):
         if left[0] <= 0 or actor[0] is None:
             return
         ncall[0] += 1
-        if S.flag('expire_other_session_before_call_%d' % ncall[0]):
+        other = 'b' if client.session == 101 else 'a'
+        act = S.choice('adversary_before_call_%d' % ncall[0],
+                       3 if spec.get('recreate') else 2)
+        if act == 1:
             left[0] -= 1
-            other = 'b' if client.session == 101 else 'a'
             tree.expire(svcs[other]._zk.session)
             S.reach('session_expired_mid_request')
             for p in [p for p, (n, _c) in owner_of.items() if n == other]:
                 del owner_of[p]
             # node re-establishes a new session (new id), old state forgotten
             svcs[other].presence.clear()
+        elif act == 2:
+            # the other node registers the instance's running node now (its
+            # own container of the instance started) - only if it is free
+            left[0] -= 1
+            if PATHS[0] not in tree.nodes:
+                tree.seed(PATHS[0], ('host-' + other).encode(),
+                          owner=svcs[other]._zk.session)
+                owner_of[PATHS[0]] = (other, 'x')
+                S.reach('other_node_registered_mid_request')
 
     tree.before_call = before_call
     for step, req in enumerate(spec['seq']):
